@@ -406,6 +406,19 @@ def threads_case(seed, idx, tier):
     n = len(spec["clients"])
     st = cr.stats
     st["c11.threads_%d" % n] += 1
+    # one client may die mid-run (a user function of its raises at a seeded evaluation; own PRNG stream): the
+    # crashed client must die exactly as it does alone, and the survivors must not notice
+    rk = Rng(seed, "C11d-crash", idx)
+    if rk.chance(0.3):
+        c = rk.randint(0, n - 1)
+        tg = scenario.gen_targets(spec["clients"][c])
+        if tg:
+            sc = spec["clients"][c]
+            spec["faults"][c] = list(spec["faults"][c]) + [{
+                "kind": "crash", "target": "obj" if (sc.get("obj") is not None and rk.chance(0.5)) else rk.pick(tg),
+                "when": {"at": rk.wpick([(2, 1), (2, sc["n"] + 2), (6, rk.randint(1, 12))])},
+                "exc": rk.wpick([(3, "stop"), (3, "runtime"), (1, "lookup"), (1, "arith")])}]
+            st["c11.threads_with_crashing_client"] += 1
     # sequential, untraced baselines (the reference every schedule is compared with)
     base = []
     for c in range(n):
